@@ -13,11 +13,11 @@ import OpusModel.Gen.DtxConsts
                                               src/opus_encoder.c:1154-1168 (argument checks),
                                               1249-1333 (bitrate, CBR bytes, low-budget "PLC" packets),
                                               1388-1399 (silk_mode.useDTX, counter reset), 1508-1513 (SILK re-init when
-                                              leaving CELT), 1616-1746 (multi-frame split, dtx_count,
-                                              repacketiser), 1814-1826 (activity), 2117-2123
-                                              (nBytes==0 return), 2416-2452 (prev_mode, DTX decision,
+                                              leaving CELT), 1627-1757 (multi-frame split, dtx_count,
+                                              repacketiser), 1825-1837 (activity), 2130-2137
+                                              (nBytes==0 return), 2419-2457 (prev_mode, DTX decision,
                                               payload-overrun "PLC" packet)
-    * `OPUS_GET_IN_DTX`                       src/opus_encoder.c:3113-3139
+    * `OPUS_GET_IN_DTX`                       src/opus_encoder.c:3135-3161
 
   Everything the integer logic consumes from the DSP is an *oracle* argument recorded from the
   running encoder by harness/c20_dtx.c: the input being digital silence, `analysis_info.valid`
@@ -175,7 +175,7 @@ structure Sub where
   det : Bool            -- the detector's decision (src/opus_encoder.c:1819-1825), used when valid ∧ ¬silence
   silk : List SCall     -- the silk_Encode calls of this frame: [prefill]? ++ [main]   (ignored in CELT-only mode)
   bust : Bool := false  -- the coded payload exceeded the frame budget: branch `ec_tell(&enc) > (max_data_bytes-1)*8`
-                        -- taken (src/opus_encoder.c:2443-2452, "tell the decoder to call the PLC")
+                        -- taken (src/opus_encoder.c:2448-2457, "tell the decoder to call the PLC")
   deriving DecidableEq, Repr
 
 /-- Oracles of one `opus_encode*` call. -/
@@ -183,7 +183,7 @@ structure CallOr where
   digSil : Bool         -- the input frame is digital silence
   valid0 : Bool         -- analysis_info.valid right after run_analysis
   mode : Mode           -- st->mode as decided for this call
-  toCelt : Bool         -- `to_celt` of opus_encode_native (applies to the last coded frame only, :1693)
+  toCelt : Bool         -- `to_celt` of opus_encode_native (applies to the last coded frame only, :1704)
   subs : List Sub
   deriving DecidableEq, Repr
 
@@ -226,7 +226,7 @@ def lowBudgetRet (c : Cfg) (stMode : Mode) : Nat :=
     if c.outBytes = 1 ∨ (tocSilk = true ∧ frameRate ≠ 10) then 1 else 2
   else 1
 
-/-- Multi-frame split (src/opus_encoder.c:1616-1643): `(nb_frames, enc_frame_size)`. -/
+/-- Multi-frame split (src/opus_encoder.c:1627-1654): `(nb_frames, enc_frame_size)`. -/
 def split (fs frameSz : Nat) (mode : Mode) : Nat × Nat :=
   if (frameSz > fs / 50 ∧ mode ≠ .silk) ∨ frameSz > 3 * fs / 50 then
     let enc :=
@@ -236,7 +236,7 @@ def split (fs frameSz : Nat) (mode : Mode) : Nat × Nat :=
     (frameSz / enc, enc)
   else (1, frameSz)
 
-/-- `activity` as computed at src/opus_encoder.c:1795,1814-1826 (`VAD_NO_DECISION` when neither
+/-- `activity` as computed at src/opus_encoder.c:1808,1825-1837 (`VAD_NO_DECISION` when neither
     silence nor a valid analysis). -/
 def activityOf (isSil valid det : Bool) : Int :=
   if isSil then 0 else if valid then (if det then 1 else 0) else vadNoDecision
@@ -246,8 +246,8 @@ def runSilk (useDtx forceLow : Bool) : SilkSt → List SCall → SilkSt × Bool
   | s, [c] => silkCall useDtx forceLow s c
   | s, c :: cs => runSilk useDtx forceLow (silkCall useDtx forceLow s c).1 cs
 
-/-- SILK processing of one coded frame (src/opus_encoder.c:1931-2133): the new state and, when
-    SILK ran, whether it returned zero bytes.  `silk_mode.nChannelsInternal` is set at :1998. -/
+/-- SILK processing of one coded frame (src/opus_encoder.c:1944-2146): the new state and, when
+    SILK ran, whether it returned zero bytes.  `silk_mode.nChannelsInternal` is set at :2011. -/
 def frameSilk (mode : Mode) (act : Int) (st : St) (o : Sub) : St × Option Bool :=
   if mode = .celt then (st, none)
   else
@@ -255,7 +255,7 @@ def frameSilk (mode : Mode) (act : Int) (st : St) (o : Sub) : St × Option Bool 
     let r := runSilk st.silkUseDtx (act = vadNoActivity) st.silk o.silk
     ({ st with silk := r.1, modeNch := chans }, some r.2)
 
-/-- The end of a coded frame that was not dropped by SILK (src/opus_encoder.c:2405-2427):
+/-- The end of a coded frame that was not dropped by SILK (src/opus_encoder.c:2419-2441):
     `prev_mode`, then the DTX decision.  Returns the state and "return 1". -/
 def frameTail (useDtx isSil : Bool) (mode : Mode) (fQ1 : Nat) (toCelt : Bool) (act : Int) (st : St) (o : Sub) : St × Bool :=
   let pm : Mode := if toCelt then .celt else mode
@@ -269,7 +269,7 @@ def frameTail (useDtx isSil : Bool) (mode : Mode) (fQ1 : Nat) (toCelt : Bool) (a
 def frameStep (useDtx isSil : Bool) (mode : Mode) (fQ1 : Nat) (toCelt : Bool) (st : St) (o : Sub) : St × Bool × Int × Option Bool :=
   let act := activityOf isSil o.valid o.det
   let s := frameSilk mode act st o
-  if s.2 = some true then (s.1, true, act, s.2)          -- :2117-2123, before prev_mode is updated
+  if s.2 = some true then (s.1, true, act, s.2)          -- :2130-2137, before prev_mode is updated
   else
     let t := frameTail useDtx isSil mode fQ1 toCelt act s.1 o
     (t.1, t.2, act, s.2)
@@ -280,7 +280,7 @@ inductive Pkt where
   | lowBudget (len : Nat)     -- the "PLC" packet of the low-budget path (CBR: padded to len)
   | dtx (len : Nat)           -- every coded frame was dropped
   | normal                    -- coded audio; the length is the inner encoders' business
-  | bust                      -- single-frame packet whose payload exceeded the budget: TOC + 0x00, 2 bytes (:2443-2452)
+  | bust                      -- single-frame packet whose payload exceeded the budget: TOC + 0x00, 2 bytes (:2448-2457)
   | badOracle                 -- the recorded oracles do not have the shape the model computes (a tie failure)
   deriving DecidableEq, Repr
 
@@ -291,12 +291,12 @@ structure Trace where
   tc : List Bool := []
   deriving DecidableEq, Repr
 
-/-- The loop over the coded frames of one call (src/opus_encoder.c:1680-1737): final state and the
+/-- The loop over the coded frames of one call (src/opus_encoder.c:1691-1748): final state and the
     per-frame "returned 1 byte" flags (`tmp_len==1`). -/
 def frameFlags (useDtx isSil : Bool) (mode : Mode) (fQ1 : Nat) (toCelt : Bool) : St → List Sub → St × List Bool
   | st, [] => (st, [])
   | st, o :: os =>
-    -- frame_to_celt = to_celt && i==nb_frames-1  (:1693)
+    -- frame_to_celt = to_celt && i==nb_frames-1  (:1704)
     let r := frameStep useDtx isSil mode fQ1 (toCelt && os.isEmpty) st o
     let t := frameFlags useDtx isSil mode fQ1 toCelt r.1 os
     (t.1, r.2.1 :: t.2)
@@ -316,7 +316,7 @@ def frameTrace (useDtx isSil : Bool) (mode : Mode) (fQ1 : Nat) (toCelt : Bool) :
     frames with equal TOC): code 0, code 1 (CBR, two frames), code 3 CBR. -/
 def dtxPacketLen (nbFrames : Nat) : Nat := if nbFrames ≤ 2 then 1 else 2
 
-/-- Number and duration (Q1 ms, `2*1000*frame_size/Fs` at :2418) of the coded frames of a call. -/
+/-- Number and duration (Q1 ms, `2*1000*frame_size/Fs` at :2434) of the coded frames of a call. -/
 def nSub (c : Cfg) (m : Mode) : Nat := (split c.fs (frameSize c) m).1
 def subQ1 (c : Cfg) (m : Mode) : Nat := 2 * 1000 * (split c.fs (frameSize c) m).2 / c.fs
 
@@ -343,14 +343,14 @@ def prepCall (c : Cfg) (st : St) (o : CallOr) : St :=
 def encodeLoop (c : Cfg) (st : St) (o : CallOr) : St × List Bool :=
   frameFlags c.useDtx (isSilOf c o) o.mode (subQ1 c o.mode) o.toCelt (prepCall c st o) o.subs
 
-/-- `dtx_count == nb_frames` (:1738); `nb_frames ≥ 1` in the C code, so an empty list is never
+/-- `dtx_count == nb_frames` (:1749-1751); `nb_frames ≥ 1` in the C code, so an empty list is never
     "all dropped". -/
 def pktOf (flags : List Bool) (n : Nat) : Pkt :=
   if (!flags.isEmpty && flags.all id) = true then .dtx (dtxPacketLen n) else .normal
 
 /-- The packet of a call that went through the frame loop: all coded frames dropped → DTX packet
-    (:1738-1740); a single coded frame, not dropped, whose payload exceeded the budget → the 2-byte
-    "PLC" packet of :2443-2452 (`max_data_bytes ≥ 3` on this path, so not `OPUS_BUFFER_TOO_SMALL`); in a
+    (:1749-1751); a single coded frame, not dropped, whose payload exceeded the budget → the 2-byte
+    "PLC" packet of :2448-2457 (`max_data_bytes ≥ 3` on this path, so not `OPUS_BUFFER_TOO_SMALL`); in a
     multi-frame packet such a frame contributes two bytes to a longer packet. -/
 def finalPkt (flags : List Bool) (n : Nat) (subs : List Sub) : Pkt :=
   match flags, subs with
@@ -373,7 +373,7 @@ def encodeCall (c : Cfg) (st : St) (o : CallOr) : St × Pkt × Trace :=
      frameTrace c.useDtx (isSilOf c o) o.mode (subQ1 c o.mode) o.toCelt (prepCall c st o) o.subs
        { sil := if isSilOf c o then 1 else 0 })
 
-/-- `OPUS_GET_IN_DTX` (src/opus_encoder.c:3113-3139). -/
+/-- `OPUS_GET_IN_DTX` (src/opus_encoder.c:3135-3161). -/
 def inDtx (c : Cfg) (st : St) : Bool :=
   if st.silkUseDtx ∧ (st.prevMode = .silk ∨ st.prevMode = .hybrid) then
     let v := decide (st.silk.c0 ≥ nbSpeechFramesBeforeDtx)
